@@ -36,6 +36,12 @@ func TestWorker(t *testing.T) {
 		}
 		w.Flush()
 	}
+	sink = func(e Event) {
+		b, _ := json.Marshal(e)
+		w.Write(b)
+		w.WriteByte('\n')
+		w.Flush()
+	}
 	scn := bufio.NewScanner(f)
 	scn.Buffer(make([]byte, 1<<20), 1<<26)
 	idx := -1
